@@ -361,7 +361,13 @@ void run_world(const Plan &plan, const sim::SchedConfig &cfg, WorldResult &res) 
     sim::LibRegion lr;
     wr.w.priv.clear();
     wr.w.mail.clear();
-    wr.w.shared = Pool();
+    // reset slot by slot: needs no assignment operator of any pooled class
+    for (auto &x : wr.w.shared.o) x.reset();
+    for (auto &x : wr.w.shared.og) x.reset();
+    for (auto &x : wr.w.shared.gen) x.reset();
+    for (auto &x : wr.w.shared.p) x.reset();
+    for (auto &x : wr.w.shared.s) x.reset();
+    for (auto &x : wr.w.shared.g) x.reset();
   }
   size_t live1 = sim::live_library_allocations();
   res.leaked = live1 > live0 ? live1 - live0 : 0;
